@@ -36,7 +36,13 @@ use verif_harness::{join, rng::Rng, Recorder};
 pub struct BmpCfg { pub port: u8 }
 /// The settings of the `rib` unit that can be observed from outside.
 #[derive(Clone, Debug, PartialEq)]
-pub struct RibCfg { pub sources: Vec<u8>, pub v4: u8, pub path: u8 }
+pub struct RibCfg { pub sources: Vec<u8>, pub v4: u8, pub path: u8,
+    /// length of the `filter_names` array (0 = key absent); >= 2 is the shorthand that generates `rib-vRIB-<k>` units
+    pub filters: u8,
+    /// a hand-written virtual RIB `vr` (`rib_type = "Virtual"`, `sources = ["rib"]`, `vrib_upstream = "rib"`,
+    /// `http_api_path = "/vr/"`) consumed by a null-out target `t8`
+    pub vr: bool }
+impl RibCfg { pub fn plain(sources: Vec<u8>, v4: u8, path: u8) -> RibCfg { RibCfg { sources, v4, path, filters: 0, vr: false } } }
 #[derive(Clone, Debug, PartialEq)]
 pub struct LDoc {
     /// `b0`, `b1`
@@ -50,13 +56,17 @@ pub struct LDoc {
 
 pub const PATHS: [&str; 2] = ["/prefixes/", "/rib2/"];
 
-fn unit_name(i: u8) -> String { match i { 0 => "b0".into(), 1 => "b1".into(), 2 => "rib".into(), n => format!("u{n}") } }
-fn unit_id(s: &str) -> u32 { match s { "b0" => 0, "b1" => 1, "rib" => 2, x => x[1..].parse().unwrap_or(99) } }
+pub const VR: u32 = 3;
+pub const VR_PATH: &str = "/vr/";
+/// id of the generated virtual RIB `rib-vRIB-<k>` (as in `Model/Mgr.lean`: 100 + 10 * name + k)
+pub fn vrib_id(k: u8) -> u32 { 120 + k as u32 }
+fn unit_name(i: u8) -> String { match i { 0 => "b0".into(), 1 => "b1".into(), 2 => "rib".into(), 3 => "vr".into(), n => format!("u{n}") } }
+fn unit_id(s: &str) -> u32 { match s { "b0" => 0, "b1" => 1, "rib" => 2, "vr" => VR, x => if let Some(k) = x.strip_prefix("rib-vRIB-") { k.parse::<u32>().map(|k| 120 + k).unwrap_or(99) } else { x.get(1..).and_then(|y| y.parse().ok()).unwrap_or(99) } } }
 
 impl LDoc {
     pub fn show(&self) -> String {
         let b = |x: &Option<BmpCfg>| x.as_ref().map(|c| c.port.to_string()).unwrap_or("-".into());
-        let r = self.rib.as_ref().map(|r| format!("{}.{}.{}", join(r.sources.iter(), "+"), r.v4, r.path)).unwrap_or("-".into());
+        let r = self.rib.as_ref().map(|r| format!("{}.{}.{}.{}.{}", join(r.sources.iter(), "+"), r.v4, r.path, r.filters, r.vr as u8)).unwrap_or("-".into());
         format!("{},{},{},{},{}", b(&self.bmp[0]), b(&self.bmp[1]), r, join(self.nulls.iter().map(|(n, s)| format!("{}:{}", n, join(s.iter(), "+"))), ";"), self.broken)
     }
     pub fn parse(s: &str) -> Option<LDoc> {
@@ -66,8 +76,9 @@ impl LDoc {
         let nums = |x: &str| -> Option<Vec<u8>> { if x.is_empty() { Some(vec![]) } else { x.split('+').map(|y| y.parse().ok()).collect() } };
         let rib = if f[2] == "-" { None } else {
             let g: Vec<&str> = f[2].split('.').collect();
-            if g.len() != 3 { return None; }
-            Some(RibCfg { sources: nums(g[0])?, v4: g[1].parse().ok()?, path: g[2].parse().ok()? })
+            if g.len() != 3 && g.len() != 5 { return None; }
+            let (filters, vr) = if g.len() == 5 { (g[3].parse().ok()?, g[4] == "1") } else { (0, false) };
+            Some(RibCfg { sources: nums(g[0])?, v4: g[1].parse().ok()?, path: g[2].parse().ok()?, filters, vr })
         };
         let mut nulls = vec![];
         if !f[3].is_empty() { for t in f[3].split(';') { let (n, s) = t.split_once(':')?; nulls.push((n.parse().ok()?, nums(s)?)); } }
@@ -80,23 +91,42 @@ impl LDoc {
         }
         if let Some(r) = &self.rib {
             s.push_str(&format!("\n[units.rib]\ntype = \"rib\"\nsources = [{}]\nhttp_api_path = \"{}\"\n", join(r.sources.iter().map(|x| format!("\"{}\"", unit_name(*x))), ", "), PATHS[r.path as usize]));
+            if r.filters > 0 { s.push_str(&format!("filter_names = [{}]\n", join((0..r.filters).map(|k| format!("\"f{k}\"")), ", "))); }
             s.push_str(&format!("\n[units.rib.query_limits.more_specifics]\nshortest_prefix_ipv4 = {}\nshortest_prefix_ipv6 = 19\n", r.v4));
+            if r.vr { s.push_str(&format!("\n[units.vr]\ntype = \"rib\"\nrib_type = \"Virtual\"\nsources = [\"rib\"]\nvrib_upstream = \"rib\"\nhttp_api_path = \"{VR_PATH}\"\n")); }
         }
         if self.bmp.iter().all(|b| b.is_none()) && self.rib.is_none() { s.push_str("\n[units]\n"); }
         for (n, srcs) in &self.nulls {
             s.push_str(&format!("\n[targets.t{}]\ntype = \"null-out\"\nsources = [{}]\n", n, join(srcs.iter().map(|x| format!("\"{}\"", unit_name(*x))), ", ")));
         }
-        if self.nulls.is_empty() && self.broken != 2 { s.push_str("\n[targets]\n"); }
+        if self.rib.as_ref().map(|r| r.vr).unwrap_or(false) { s.push_str("\n[targets.t8]\ntype = \"null-out\"\nsources = [\"vr\"]\n"); }
+        else if self.nulls.is_empty() && self.broken != 2 { s.push_str("\n[targets]\n"); }
         match self.broken { 1 => s.push_str("\n[[[ not toml\n"), 2 => s.push_str("\n[targets.t9]\ntype = \"no-such-type\"\nsources = [\"b0\"]\n"), _ => {} }
         s
     }
-    fn present(&self, u: u8) -> bool { match u { 0 | 1 => self.bmp[u as usize].is_some(), 2 => self.rib.is_some(), _ => false } }
+    /// the generated virtual RIBs `rib-vRIB-<k>` of the file
+    pub fn vribs(&self) -> Vec<u8> { match &self.rib { Some(r) if r.filters >= 2 => (0..r.filters - 1).collect(), _ => vec![] } }
+    /// what a consumer that names `rib` is wired to: the rib itself, or its last generated virtual RIB
+    pub fn rib_out(&self) -> u32 { self.vribs().last().map(|k| vrib_id(*k)).unwrap_or(2) }
+    /// the units of the file after the shorthand expansion, each with the units its links name
+    pub fn units(&self) -> Vec<(u32, Vec<u32>)> {
+        let mut us = vec![];
+        for i in 0..2 { if self.bmp[i].is_some() { us.push((i as u32, vec![])); } }
+        if let Some(r) = &self.rib {
+            us.push((2, r.sources.iter().map(|x| *x as u32).collect()));
+            for k in self.vribs() { us.push((vrib_id(k), vec![if k == 0 { 2 } else { vrib_id(k - 1) }, 2])); }
+            if r.vr { us.push((VR, vec![self.rib_out(), 2])); }
+        }
+        us
+    }
     /// referenced units (what must run after a successful load), `None` if a link is unresolved
-    pub fn referenced(&self) -> Option<BTreeSet<u8>> {
-        let mut refs = BTreeSet::new();
-        for (_, s) in &self.nulls { refs.extend(s.iter().cloned()); }
-        if let Some(r) = &self.rib { refs.extend(r.sources.iter().cloned()); }
-        if refs.iter().all(|r| self.present(*r)) { Some(refs) } else { None }
+    pub fn referenced(&self) -> Option<BTreeSet<u32>> {
+        let us = self.units();
+        let mut refs: BTreeSet<u32> = BTreeSet::new();
+        for (_, s) in &self.nulls { refs.extend(s.iter().map(|x| if *x == 2 { self.rib_out() } else { *x as u32 })); }
+        if self.rib.as_ref().map(|r| r.vr).unwrap_or(false) { refs.insert(VR); }
+        for (_, l) in &us { refs.extend(l.iter().cloned()); }
+        if refs.iter().all(|r| us.iter().any(|(u, _)| u == r)) { Some(refs) } else { None }
     }
     /// the property's reading: is this a configuration that must load?
     pub fn valid(&self) -> bool {
@@ -176,7 +206,9 @@ pub struct RefRib { pub store: BTreeMap<(u16, u8), bool>, pub cfg: RibCfg }
 #[derive(Clone, Debug, PartialEq)]
 pub struct RefBmp { pub port: u8, pub sessions: Vec<u8>, pub reloaded: bool, pub reloads: u32 }
 #[derive(Clone, Debug, PartialEq, Default)]
-pub struct RefState { pub bmp: [Option<RefBmp>; 2], pub rib: Option<RefRib>, pub last: String }
+pub struct RefState { pub bmp: [Option<RefBmp>; 2], pub rib: Option<RefRib>, pub last: String,
+    /// running virtual RIBs (`vrib_id(k)` / `VR`) -> index of the HTTP path they answer below (`VR`: its own)
+    pub virt: BTreeMap<u32, u8> }
 
 impl RefState {
     pub fn load(&mut self, doc: &LDoc, f: Flags) {
@@ -184,7 +216,7 @@ impl RefState {
         self.last = "ok".into();
         let refs = doc.referenced().unwrap();
         for i in 0..2u8 {
-            let new = doc.bmp[i as usize].as_ref().filter(|_| refs.contains(&i));
+            let new = doc.bmp[i as usize].as_ref().filter(|_| refs.contains(&(i as u32)));
             self.bmp[i as usize] = match (self.bmp[i as usize].take(), new) {
                 // kept: sessions stay, listens where the file says (as written: not once its gate is wedged)
                 (Some(old), Some(c)) => { let wedged = f.queue_wedge && old.reloads >= 6; let n = if old.sessions.is_empty() { old.reloads } else { old.reloads + 1 };
@@ -199,6 +231,17 @@ impl RefState {
             (None, Some(c)) => Some(RefRib { store: BTreeMap::new(), cfg: c.clone() }),
             (_, None) => None,
         };
+        // virtual RIBs: kept ones stay (as written they keep the path they were started with), new ones start
+        let mut virt = BTreeMap::new();
+        if let Some(r) = &doc.rib {
+            let mut ids: Vec<u32> = doc.vribs().into_iter().map(vrib_id).collect();
+            if r.vr { ids.push(VR); }
+            for id in ids { if refs.contains(&id) {
+                let p = match self.virt.get(&id) { Some(old) if f.path_ignored => *old, _ => r.path };
+                virt.insert(id, p);
+            } }
+        }
+        self.virt = virt;
     }
     pub fn session_unit(&self, r: u8) -> Option<u8> { (0..2u8).find(|i| self.bmp[*i as usize].as_ref().map(|b| b.sessions.contains(&r)).unwrap_or(false)) }
     pub fn wired(&self, r: u8) -> bool { match (self.session_unit(r), &self.rib) { (Some(b), Some(rib)) => rib.cfg.sources.contains(&b), _ => false } }
@@ -223,7 +266,11 @@ impl RefState {
         let mut units = vec![];
         for i in 0..2 { if self.bmp[i].is_some() { units.push(i as u32); } }
         if self.rib.is_some() { units.push(2); }
-        Obs {
+        units.extend(self.virt.keys().cloned());
+        units.sort();
+        let mut virt: Vec<(String, String)> = self.virt.iter().map(|(id, p)| (if *id == VR { "v".to_string() } else { format!("{}.{}", p, id - 120) }, "=".to_string())).collect();
+        virt.sort_by_key(|(l, _)| vlabel_key(l));
+        Obs { virt,
             res: self.last.clone(), units,
             rib: self.rib.as_ref().map(|r| (format!("{}", r.cfg.path), if r.cfg.v4 <= 8 { "8".to_string() } else { "16".to_string() }, r.store.iter().map(|((p, s), a)| format!("{}.{}{}", p, s, if *a { 'A' } else { 'W' })).collect())),
             bmp: [self.bmp[0].as_ref().map(|b| sorted(&b.sessions)), self.bmp[1].as_ref().map(|b| sorted(&b.sessions))],
@@ -244,12 +291,18 @@ pub struct Obs {
     pub bmp: [Option<Vec<u8>>; 2],
     pub ports: Vec<u8>,
     pub open: Vec<u8>,
+    /// the virtual RIB endpoints that exist (`v` = the hand-written one, `<path>.<k>` = `rib-vRIB-<k>` below path
+    /// index `<path>`) and what a prefix query to each shows: `=` the records the physical RIB shows, `T` no answer
+    /// within the bounded wait, `E<status>` an error status, `!<records>` other records
+    pub virt: Vec<(String, String)>,
 }
+/// order of the `Q=` field: the hand-written virtual RIB first, then by index, then by path
+fn vlabel_key(l: &str) -> (u32, u32) { match l.split_once('.') { Some((p, k)) => (1 + k.parse::<u32>().unwrap_or(0), p.parse().unwrap_or(0)), None => (0, 0) } }
 impl Obs {
     pub fn show(&self) -> String {
         let rib = match &self.rib { None => "-".to_string(), Some((p, l, recs)) => format!("{}:{}:{}", p, l, recs.join(",")) };
         let b = |x: &Option<Vec<u8>>| x.as_ref().map(|s| format!("[{}]", join(s.iter(), ","))).unwrap_or("-".into());
-        format!("{} U={} rib={} b0={} b1={} P={} S={}", self.res, join(self.units.iter(), ","), rib, b(&self.bmp[0]), b(&self.bmp[1]), join(self.ports.iter(), ","), join(self.open.iter(), ","))
+        format!("{} U={} rib={} b0={} b1={} P={} S={} Q={}", self.res, join(self.units.iter(), ","), rib, b(&self.bmp[0]), b(&self.bmp[1]), join(self.ports.iter(), ","), join(self.open.iter(), ","), join(self.virt.iter().map(|(l, v)| format!("{l}:{v}")), ","))
     }
 }
 
@@ -269,7 +322,15 @@ pub struct Live {
     pub routers: BTreeMap<u8, Router>,
     pub window: Arc<Window>,
     next_marker: u16,
+    /// virtual RIB endpoints that did not answer within the long bounded wait since the last load (they are
+    /// probed with one short attempt from then on, so that a dead link costs the case seconds, not minutes)
+    pub dead: BTreeSet<String>,
 }
+
+/// status `get_t` reports when no response arrived within the wait
+pub const TIMEOUT: u16 = 598;
+/// the prefix virtual RIBs are probed with (never announced, see `observe_virt`)
+pub const VPROBE: &str = "10.250.0.0/24";
 
 #[derive(Debug, PartialEq, Clone)]
 pub enum LoadRes { Ok, Err, Panic }
@@ -307,7 +368,7 @@ impl Live {
         vm::reset_loader();
         let manager = vm::Manager::new();
         drop(_g);
-        Live { rt, manager, dir: dir.to_path_buf(), ports: free_ports(3), routers: BTreeMap::new(), window, next_marker: 3000 }
+        Live { rt, manager, dir: dir.to_path_buf(), ports: free_ports(3), routers: BTreeMap::new(), window, next_marker: 3000, dead: BTreeSet::new() }
     }
 
     /// The load path of `main.rs`: `ConfigFile::new` -> `Manager::load` -> `prepare` -> `spawn`.
@@ -331,17 +392,66 @@ impl Live {
         match catch_unwind(AssertUnwindSafe(|| self.manager.spawn(&mut config))) { Err(_) => (LoadRes::Panic, none.clone(), none), Ok(()) => (LoadRes::Ok, none.clone(), none) }
     }
 
-    pub fn get(&self, target: &str) -> (u16, String) {
+    pub fn get(&self, target: &str) -> (u16, String) { self.get_t(target, 20_000) }
+
+    /// One request through the real handler chain; a request that is not answered within `ms` is
+    /// dropped and reported as status `TIMEOUT` (a hang is an observation, the engine never waits on it).
+    pub fn get_t(&self, target: &str, ms: u64) -> (u16, String) {
         let req = Request::builder().method("GET").uri(target).body(Body::empty()).unwrap();
         let resources = self.manager.http_resources();
         let metrics = self.manager.metrics();
         let r = catch_unwind(AssertUnwindSafe(|| self.rt.block_on(async {
-            let res = vh::handle_request(req, &metrics, &resources).await;
-            let status = res.status().as_u16();
-            let body = hyper::body::to_bytes(res.into_body()).await.map(|b| b.to_vec()).unwrap_or_default();
-            (status, String::from_utf8_lossy(&body).into_owned())
+            let fut = async {
+                let res = vh::handle_request(req, &metrics, &resources).await;
+                let status = res.status().as_u16();
+                let body = hyper::body::to_bytes(res.into_body()).await.map(|b| b.to_vec()).unwrap_or_default();
+                (status, String::from_utf8_lossy(&body).into_owned())
+            };
+            match tokio::time::timeout(Duration::from_millis(ms), fut).await { Ok(x) => x, Err(_) => (TIMEOUT, "timeout".into()) }
         })));
         r.unwrap_or((599, "panic".into()))
+    }
+
+    /// The candidate endpoints of virtual RIBs: `(label, base path)`.
+    pub fn virt_candidates() -> Vec<(String, String)> {
+        let mut v = vec![("v".to_string(), VR_PATH.to_string())];
+        for k in 0..3u8 { for (pi, p) in PATHS.iter().enumerate() { v.push((format!("{pi}.{k}"), format!("{p}{k}/"))); } }
+        v
+    }
+
+    /// One prefix query to a virtual RIB endpoint with retries: a query sent while the pipeline is still
+    /// re-wiring may be lost for good (its trigger or its result falls into a reconfigure window), so only an
+    /// endpoint that answers none of several attempts with growing waits (7.5 s in all; one short attempt
+    /// once it was found dead) counts as not answering.
+    pub fn virt_get(&mut self, label: &str, target: &str) -> (u16, String) {
+        let waits: &[u64] = if self.dead.contains(label) { &[150] } else { &[500, 1000, 2000, 4000] };
+        for w in waits { let r = self.get_t(target, *w); if r.0 != TIMEOUT { self.dead.remove(label); return r; } }
+        self.dead.insert(label.to_string());
+        (TIMEOUT, "timeout".into())
+    }
+
+    /// What the virtual RIB endpoints show (see `Obs::virt`). The query goes the whole way: the trigger over
+    /// the unit's `vrib_upstream` link into the physical RIB's command channel, `match_prefix` there, the
+    /// `QueryResult` published through the physical RIB's gate and passed on by every virtual RIB in between.
+    /// The probe prefix is one no session ever announces: on this tree a virtual RIB that receives a
+    /// *non-empty* result runs into `todo!()` (`reprocess_rib_value`, rib_unit/unit.rs) inside the physical
+    /// RIB's task and takes that unit down — a defect of the query path (C11/C12), not of reloading, which
+    /// this observation must not trip over. What the sessions announced is read at the physical RIB.
+    pub fn observe_virt(&mut self, prib_path: Option<&str>) -> Vec<(String, String)> {
+        let prib = prib_path.and_then(|p| { let (st, body) = self.get(&format!("{p}{VPROBE}")); if st == 200 { records_of(0, &body) } else { None } });
+        let mut out = vec![];
+        for (label, base) in Live::virt_candidates() {
+            let (st, body) = self.virt_get(&label, &format!("{base}{VPROBE}"));
+            let v = match st {
+                404 | 400 => continue,                                      // nobody serves this path
+                TIMEOUT => "T".to_string(),
+                200 => match (records_of(0, &body), &prib) { (Some(r), Some(p)) if r == *p => "=".to_string(), (Some(r), _) => format!("!{}", r.join("+")), (None, _) => "E-json".to_string() },
+                s => format!("E{s}"),
+            };
+            out.push((label, v));
+        }
+        out.sort_by_key(|(l, _)| vlabel_key(l));
+        out
     }
 
     /// TCP connect + Initiation + Peer Up. Each router comes from its own loopback address (the
@@ -389,14 +499,9 @@ impl Live {
         for id in ids {
             let (st, body) = self.get(&format!("{}{}", path, pfx_str(*id)));
             if st != 200 { return None; }
-            let v: serde_json::Value = serde_json::from_str(&body).ok()?;
-            for rec in v["data"].as_array()? {
-                let asn: String = rec["ingress_info"]["remote_asn"].to_string().chars().filter(|c| c.is_ascii_digit()).collect();
-                let router = asn.parse::<u32>().ok().and_then(|a| a.checked_sub(65000)).map(|r| r.to_string()).unwrap_or("?".into());
-                out.push(format!("{}.{}{}", id, router, match rec["status"].as_str() { Some("active") => 'A', Some("withdrawn") => 'W', _ => '?' }));
-            }
+            out.extend(records_of(*id, &body)?);
         }
-        out.sort_by_key(|s| { let (p, r) = s.split_once('.').unwrap(); (p.parse::<u16>().unwrap_or(0), r.to_string()) });
+        sort_records(&mut out);
         Some(out)
     }
 
@@ -421,9 +526,23 @@ impl Live {
         };
         let rs: Vec<u8> = self.routers.keys().cloned().collect();
         let open: Vec<u8> = rs.into_iter().filter(|r| !self.session_closed(*r)).collect();
-        Obs { res: res.into(), units, rib, bmp: [self.routers_shown(0), self.routers_shown(1)], ports: self.listening(), open }
+        let virt = self.observe_virt(answering.first().map(|i| PATHS[*i]));
+        Obs { res: res.into(), units, rib, bmp: [self.routers_shown(0), self.routers_shown(1)], ports: self.listening(), open, virt }
     }
 }
+
+/// the records of one prefix-query response, as `pfx.router(A|W)`
+fn records_of(id: u16, body: &str) -> Option<Vec<String>> {
+    let v: serde_json::Value = serde_json::from_str(body).ok()?;
+    let mut out = vec![];
+    for rec in v["data"].as_array()? {
+        let asn: String = rec["ingress_info"]["remote_asn"].to_string().chars().filter(|c| c.is_ascii_digit()).collect();
+        let router = asn.parse::<u32>().ok().and_then(|a| a.checked_sub(65000)).map(|r| r.to_string()).unwrap_or("?".into());
+        out.push(format!("{}.{}{}", id, router, match rec["status"].as_str() { Some("active") => 'A', Some("withdrawn") => 'W', _ => '?' }));
+    }
+    Some(out)
+}
+fn sort_records(out: &mut [String]) { out.sort_by_key(|s| { let (p, r) = s.split_once('.').unwrap(); (p.parse::<u16>().unwrap_or(0), r.to_string()) }); }
 
 fn connect_from(src_ip: &str, dst: SocketAddr) -> std::io::Result<TcpStream> {
     // std has no bind-before-connect; tokio's TcpSocket has
@@ -487,7 +606,7 @@ pub fn run_real(dir: &std::path::Path, evs: &[LEv], ids: &[u16], f: Flags, rng: 
                 obs.push(live.observe("-", ids));
             }
             LEv::Load { doc, forced, racing, .. } => {
-                let before: Vec<String> = live.observe("-", ids).rib.map(|x| x.2).unwrap_or_default();
+                let before: Vec<String> = vec![];
                 let mut writer = None;
                 if *forced { live.window.release.store(false, Ordering::SeqCst); live.window.parked.store(0, Ordering::SeqCst); live.window.armed.store(true, Ordering::SeqCst); }
                 else if !racing.is_empty() {
@@ -509,6 +628,7 @@ pub fn run_real(dir: &std::path::Path, evs: &[LEv], ids: &[u16], f: Flags, rng: 
                     spin_us(rng.below(700));
                 }
                 let (res, residue, moved) = live.load(doc);
+                live.dead.clear();
                 let res_s = match res { LoadRes::Ok => "ok", LoadRes::Err => "err", LoadRes::Panic => "panic" };
                 if *forced {
                     // wait until a gate sits in its window, publish the messages, make sure the unit has
@@ -603,6 +723,11 @@ fn settle_load(live: &mut Live, want: &RefState) {
             }
         }
     }
+    // the virtual RIBs answer queries again (short attempts; the observation that follows is the judge)
+    for (label, _) in &exp.virt {
+        let Some((_, base)) = Live::virt_candidates().into_iter().find(|(l, _)| l == label) else { continue };
+        poll(2000, || live.get_t(&format!("{base}{VPROBE}"), 250).0 == 200);
+    }
 }
 
 // ------------------------------------------------------------------ generator
@@ -615,9 +740,12 @@ fn pick_pfx(rng: &mut Rng, pool: &[u16], k: usize) -> Vec<u16> {
 
 pub fn gen_case(rng: &mut Rng, racing: bool) -> (Vec<LEv>, Vec<u16>) {
     let load = |doc: &LDoc, racing: Vec<Race>| LEv::Load { doc: doc.clone(), forced: false, residue: BTreeSet::new(), moved: BTreeSet::new(), racing };
-    let mut doc = LDoc { bmp: [Some(BmpCfg { port: 0 }), None], rib: Some(RibCfg { sources: vec![0], v4: 8, path: 0 }), nulls: vec![(0, vec![2])], broken: 0 };
+    let mut doc = LDoc { bmp: [Some(BmpCfg { port: 0 }), None], rib: Some(RibCfg::plain(vec![0], 8, 0)), nulls: vec![(0, vec![2])], broken: 0 };
     if rng.chance(30, 100) { doc.bmp[1] = Some(BmpCfg { port: 1 }); if rng.chance(50, 100) { doc.rib.as_mut().unwrap().sources.push(1); } else { doc.nulls.push((2, vec![1])); } }
     if rng.chance(20, 100) { doc.rib.as_mut().unwrap().v4 = 16; }
+    // the rib in the `filter_names` shorthand (>= 2 names generate virtual RIBs), a hand-written virtual RIB
+    doc.rib.as_mut().unwrap().filters = match rng.below(100) { 0..=34 => 0, 35..=44 => 1, 45..=79 => 2, _ => 3 };
+    if rng.chance(25, 100) { doc.rib.as_mut().unwrap().vr = true; }
     let spec = Flags::default();
     let mut st = RefState::default();
     let mut evs = vec![load(&doc, vec![])];
@@ -679,7 +807,8 @@ fn edit(rng: &mut Rng, d: &LDoc, st: &RefState, racing: bool) -> LDoc {
     let mut n = d.clone();
     let b1_routes_in_rib = st.bmp[1].as_ref().map(|b| st.rib.as_ref().map(|r| r.store.keys().any(|(_, s)| b.sessions.contains(s))).unwrap_or(false)).unwrap_or(false);
     let free_port = |d: &LDoc| (0..3u8).find(|p| !d.bmp.iter().flatten().any(|b| b.port == *p));
-    match rng.below(if racing { 9 } else { 14 }) {
+    let op = rng.below(if racing { 11 } else { 16 });
+    match if racing && op >= 9 { op + 5 } else { op } {
         0 => {}                                                                     // unchanged file
         1 => { if let Some(r) = n.rib.as_mut() { r.v4 = if r.v4 == 8 { 16 } else { 8 }; } }
         2 => { if let Some(r) = n.rib.as_mut() { r.path = 1 - r.path; } }
@@ -701,12 +830,14 @@ fn edit(rng: &mut Rng, d: &LDoc, st: &RefState, racing: bool) -> LDoc {
         }
         11 => { // remove the rib (b0 keeps running through a target of its own) / bring it back
             if n.rib.is_some() { n.rib = None; n.nulls.retain(|(_, s)| !s.contains(&2)); if !n.nulls.iter().any(|(t, _)| *t == 4) { n.nulls.push((4, vec![0])); } if n.bmp[1].is_some() && !n.nulls.iter().any(|(t, _)| *t == 2) { n.nulls.push((2, vec![1])); } }
-            else { let mut s = vec![0]; if n.bmp[1].is_some() && rng.chance(50, 100) { s.push(1); } n.rib = Some(RibCfg { sources: s, v4: 8, path: 0 }); n.nulls.push((0, vec![2])); }
+            else { let mut s = vec![0]; if n.bmp[1].is_some() && rng.chance(50, 100) { s.push(1); } n.rib = Some(RibCfg::plain(s, 8, 0)); n.nulls.push((0, vec![2])); }
         }
         12 => { // remove b1 (not while routes of its sessions are in the RIB: the end-of-session withdrawals of a
             // terminating unit race with the rib's own reconfiguration)
             if n.bmp[1].is_some() && !b1_routes_in_rib { n.bmp[1] = None; n.nulls.retain(|(t, _)| *t != 2); if let Some(r) = n.rib.as_mut() { r.sources.retain(|s| *s != 1); } }
         }
+        14 => { if let Some(r) = n.rib.as_mut() { let k = rng.below(4) as u8; r.filters = if k == r.filters { (k + 2) % 4 } else { k }; } }   // other number of filter names
+        15 => { if let Some(r) = n.rib.as_mut() { r.vr = !r.vr; } }                  // hand-written virtual RIB added / removed
         _ => { // b1 loses its last reference: "unused and will be stopped"
             if n.bmp[1].is_some() && !b1_routes_in_rib { n.nulls.retain(|(t, _)| *t != 2); if let Some(r) = n.rib.as_mut() { r.sources.retain(|s| *s != 1); } }
         }
@@ -730,7 +861,8 @@ pub fn oracle(evs: &[LEv], obs: &[Obs]) -> String {
     let mut cur = RefState::default();
     let mut routers: Vec<u8> = vec![];
     let mut fails: Vec<String> = vec![];
-    for (e, o) in evs.iter().zip(obs.iter()) {
+    let mut wiring: Option<String> = None;
+    for (idx, (e, o)) in evs.iter().zip(obs.iter()).enumerate() {
         if let LEv::Connect { r, .. } = e { routers.push(*r); }
         if let LEv::Load { racing, forced, .. } = e {
             let lost: Vec<String> = racing.iter().flat_map(|x| x.lost.iter().map(move |p| format!("{}@router{}", p, x.r))).collect();
@@ -755,6 +887,15 @@ pub fn oracle(evs: &[LEv], obs: &[Obs]) -> String {
             else if o.units != exp.units { format!("running-units expected {:?} got {:?}", exp.units, o.units) }
             else if o.bmp != exp.bmp || o.open != exp.open { format!("sessions expected b0={:?} b1={:?} open={:?} got b0={:?} b1={:?} open={:?}", exp.bmp[0], exp.bmp[1], exp.open, o.bmp[0], o.bmp[1], o.open) }
             else if o.ports != exp.ports { format!("listen-address listening on port indexes {:?}, the file says {:?}", o.ports, exp.ports) }
+            else if o.virt != exp.virt && o.rib == exp.rib {
+                let show = |v: &Vec<(String, String)>| join(v.iter().map(|(l, x)| format!("{l}:{x}")), ",");
+                let dead: Vec<&String> = o.virt.iter().filter(|(l, x)| x == "T" && exp.virt.iter().any(|(l2, _)| l2 == l)).map(|(l, _)| l).collect();
+                let loaded = evs[..=idx].iter().filter(|e| matches!(e, LEv::Load { .. })).count() > 1;
+                if !dead.is_empty() && loaded {
+                    wiring = Some(format!("wiring:vrib-query-unanswered-after-reload a prefix query to a running virtual RIB is not answered within the bounded wait after a reload: its query link to the physical RIB is not the one of the last loaded file (endpoints {}; event {} `{}`; physical RIB answers; expected Q={} got Q={})", join(dead.iter(), ","), idx, e.show(), show(&exp.virt), show(&o.virt)));
+                    String::new()
+                } else { format!("virtual-rib-endpoints expected Q={} got Q={}", show(&exp.virt), show(&o.virt)) }
+            }
             else { match (&o.rib, &exp.rib) {
                 (Some(a), Some(b)) if a.2 != b.2 => format!("rib-content expected [{}] got [{}]", b.2.join(","), a.2.join(",")),
                 (Some(a), Some(b)) if a.1 != b.1 => format!("query-limit probe says {} the file says {}", a.1, b.1),
@@ -762,19 +903,19 @@ pub fn oracle(evs: &[LEv], obs: &[Obs]) -> String {
                 (None, Some(_)) => "rib-endpoint missing".to_string(),
                 _ => "rib-endpoint survived the unit".to_string(),
             } };
-        fails.push(format!("live:{}", field.replacen(' ', " ", 1)));
+        match wiring.take() { Some(w) => fails.push(w), None => fails.push(format!("live:{}", field.replacen(' ', " ", 1))) }
         cur = spec;
     }
     if fails.is_empty() { "ok".into() } else {
         // an unknown deviation outranks the known ones
-        let first = fails.iter().find(|f| f.starts_with("live:")).unwrap_or(&fails[0]);
+        let first = fails.iter().find(|f| f.starts_with("live:") || f.starts_with("wiring:")).unwrap_or(&fails[0]);
         format!("fail {}", first)
     }
 }
 
 // ------------------------------------------------------------------ witnesses, streams
 
-fn d0() -> LDoc { LDoc { bmp: [Some(BmpCfg { port: 0 }), None], rib: Some(RibCfg { sources: vec![0], v4: 8, path: 0 }), nulls: vec![(0, vec![2])], broken: 0 } }
+fn d0() -> LDoc { LDoc { bmp: [Some(BmpCfg { port: 0 }), None], rib: Some(RibCfg::plain(vec![0], 8, 0)), nulls: vec![(0, vec![2])], broken: 0 } }
 fn ld(doc: &LDoc) -> LEv { LEv::Load { doc: doc.clone(), forced: false, residue: BTreeSet::new(), moved: BTreeSet::new(), racing: vec![] } }
 pub fn default_ids() -> Vec<u16> { (0..12).map(|i| i * 21 % 256).collect() }
 
@@ -786,6 +927,15 @@ fn record(rec: &mut Recorder, kind: &str, evs: &[LEv], obs: &[Obs]) {
     rec.bump_by("live.racing-updates.sent", raced as u64);
     rec.bump_by("live.racing-updates.lost", lost as u64);
     for o in obs { rec.bump(&format!("live.load-result.{}", o.res)); }
+    let mut loads_ok = 0;
+    for (e, o) in evs.iter().zip(obs.iter()) {
+        if matches!(e, LEv::Load { .. }) && o.res == "ok" { loads_ok += 1; }
+        for (l, v) in &o.virt {
+            let kind = if l == "v" { "hand-written" } else { "generated" };
+            rec.bump(&format!("live.vrib-query.{}.{}.{}", kind, if loads_ok > 1 { "after-reload" } else { "after-start-up" }, match v.as_str() { "=" => "same-as-physical", "T" => "timeout", _ => "other" }));
+        }
+    }
+    if let Some(LEv::Load { doc, .. }) = evs.first() { rec.bump(&format!("live.first-doc.filter-names.{}", doc.rib.as_ref().map(|r| r.filters).unwrap_or(0))); }
     // non-trivial: a reload happened while at least one router session existed
     let mut sess = false; let mut nontrivial = false;
     for (e, o) in evs.iter().zip(obs.iter()) { if let LEv::Load { .. } = e { if sess && o.res == "ok" { nontrivial = true; } } if !o.open.is_empty() { sess = true; } }
@@ -821,7 +971,7 @@ pub fn witnesses(dir: &std::path::Path, rng: &mut Rng, rec: &mut Recorder, recor
     let aw = Flags { clone_stale, ..aw };
     // (3) twelve reloads with a router connected to a unit, then that unit's listen address changes. The unit
     //     is not wired to the rib: what happens to a wedged unit's traffic is timing and not looked at.
-    let dw = LDoc { bmp: [Some(BmpCfg { port: 0 }), Some(BmpCfg { port: 1 })], rib: Some(RibCfg { sources: vec![0], v4: 8, path: 0 }), nulls: vec![(0, vec![2]), (2, vec![1])], broken: 0 };
+    let dw = LDoc { bmp: [Some(BmpCfg { port: 0 }), Some(BmpCfg { port: 1 })], rib: Some(RibCfg::plain(vec![0], 8, 0)), nulls: vec![(0, vec![2]), (2, vec![1])], broken: 0 };
     let mut dw2 = dw.clone(); dw2.bmp[1] = Some(BmpCfg { port: 2 });
     let mut w = vec![ld(&dw), LEv::Connect { r: 0, port: 1 }];
     for _ in 0..12 { w.push(ld(&dw)); }
@@ -837,6 +987,16 @@ pub fn witnesses(dir: &std::path::Path, rng: &mut Rng, rec: &mut Recorder, recor
             LEv::Route { r: 0, active: true, pfx: vec![84] }];
         let (e, o) = run_real(dir, &w, &default_ids(), f, rng, rec);
         record(rec, "witness-forced-window", &e, &o);
+    }
+    // (5) the query wiring of virtual RIBs: a rib in the `filter_names` shorthand (two generated virtual RIBs) and a
+    //     hand-written one, routes, a reload of the unchanged file, a reload with one name less, one with one more
+    if record_them {
+        let mut dv = d0(); { let r = dv.rib.as_mut().unwrap(); r.filters = 3; r.vr = true; }
+        let mut dv2 = dv.clone(); dv2.rib.as_mut().unwrap().filters = 2;
+        let w = vec![ld(&dv), LEv::Connect { r: 0, port: 0 }, LEv::Route { r: 0, active: true, pfx: vec![21, 42] }, ld(&dv),
+            LEv::Route { r: 0, active: true, pfx: vec![63] }, ld(&dv2), LEv::Route { r: 0, active: false, pfx: vec![21] }, ld(&dv)];
+        let (e, o) = run_real(dir, &w, &default_ids(), f, rng, rec);
+        record(rec, "witness-vrib-query-wiring", &e, &o);
     }
     f
 }
